@@ -325,11 +325,12 @@ class ObjT(Ty):
 
 
 class Val:
-    __slots__ = ("ty", "term")
+    __slots__ = ("ty", "term", "aux")
 
-    def __init__(self, ty, term):
+    def __init__(self, ty, term, aux=None):
         self.ty = ty
         self.term = term
+        self.aux = aux  # engine-side facts about the value (e.g. {"ne": z3 Bool} = non-emptiness of a set)
 
     def __repr__(self):
         return "<%r %s>" % (self.ty, self.term)
@@ -344,6 +345,7 @@ class Ref(Val):
         self.ty = ty
         self.cell = cell
         self.term = None
+        self.aux = None
 
     def __repr__(self):
         return "<ref %r #%s>" % (self.ty, self.cell)
@@ -357,6 +359,7 @@ class Func(Val):
     def __init__(self, fn, label="fn"):
         self.ty = None
         self.term = None
+        self.aux = None
         self.fn = fn
         self.label = label
 
@@ -372,6 +375,7 @@ class Conc(Val):
     def __init__(self, v):
         self.ty = None
         self.term = None
+        self.aux = None
         self.v = v
 
     def __repr__(self):
